@@ -9,7 +9,7 @@ run_one() {
   line="$1"; set -- $line; diff="$1"; shift
   tag=$(echo "$diff" | md5sum | cut -c1-10)
   wt=/tmp/wt/par/wt_$tag
-  rm -rf "$wt"; git -C /repo worktree prune
+  git -C /repo worktree remove --force "$wt" 2>/dev/null; rm -rf "$wt"
   git -C /repo worktree add -q "$wt" HEAD || { echo "$diff WORKTREE-FAILED"; return; }
   if ! git -C "$wt" apply "$diff" 2>/dev/null; then echo "$diff PATCH-DOES-NOT-APPLY"; git -C /repo worktree remove --force "$wt"; return; fi
   for pid in "$@"; do
@@ -19,4 +19,5 @@ run_one() {
   git -C /repo worktree remove --force "$wt"; rm -rf /tmp/wt/par/replays_$tag
 }
 export -f run_one
+git -C /repo worktree prune     # once, before the parallel part (pruning while another process adds a worktree races)
 grep -v '^#' "$LIST" | grep . | xargs -P "$J" -I{} bash -c 'run_one "{}"'
